@@ -44,6 +44,7 @@ func verifNewStore() *verifStoreT {
 	verifMaxRows = 0
 	verifDuringTopicDelete = nil
 	verifCredsLookupFails = false
+	verifUserSubs = nil
 	s := &verifStoreT{
 		subs:   map[string]*types.Subscription{},
 		topics: map[string]*types.Topic{},
@@ -496,7 +497,10 @@ func (verifUsers) UpdateTags(uid types.Uid, add, remove, reset []string) ([]stri
 func (verifUsers) UpdateState(uid types.Uid, state types.ObjState) error {
 	return verifStore.mutate("Users.UpdateState")
 }
-func (verifUsers) GetSubs(id types.Uid) ([]types.Subscription, error)  { return nil, nil }
+// verifUserSubs: what Users.GetSubs answers (the user's subscriptions as the 'me' topic loads them); nil = none
+var verifUserSubs []types.Subscription
+
+func (verifUsers) GetSubs(id types.Uid) ([]types.Subscription, error) { return verifUserSubs, nil }
 func (verifUsers) FindSubs(id types.Uid, required [][]string, optional []string, activeOnly bool) ([]types.Subscription, error) {
 	verifFindSubsCalls = append(verifFindSubsCalls, verifFindSubsCall{required, optional, activeOnly})
 	return nil, nil
